@@ -15,11 +15,14 @@ THEOREMS = ["C01_fold_sound", "C01_fold_sound_root", "C01_fold_accepts", "C01_fo
             # termination: every continuing pass decreases (totalEvents, playedEvents); the stack analysis stays
             # within its recursion budget; the whole run does not end in OErr.fuel
             "C01_extract_pass_decreases", "C01_pass_decreases", "pass_i16", "optimize_no_fuel", "C01_analyzeStack_budget",
-            "C01_analyzeTrack_budget", "C01_optimize_terminates_partial"]
+            "C01_analyzeTrack_budget", "C01_optimize_terminates_partial",
+            # repair of D2: a fold takes at most 255 repetitions; every LOOP_END the optimiser inserts has a count in
+            # 2..255; a pass / a whole run keeps every loop count of the song in the documented domain 0..255
+            "C01_fold_count_le_255", "C01_pass_counts", "optimize_counts", "C01_optimize_counts_le_255"]
 LEVEL = "proof"
 STREAM = "opt.final"
 CHUNK = 150
-CASE_SECONDS = 20
+CASE_SECONDS = 60     # (the real optimiser needs about 20 s under ASan for the 1000-event case of the D2 family)
 TECHNIQUE = "Lean 4 proof of rewrite soundness (loop folding and subroutine extraction preserve the structural expansion) + spec expander applied to the real optimiser's output"
 LEVEL_TEXT = ("see lean/Ctrmml/Properties/C01.lean: rewrite soundness over Spec/Expand (layer 1) and, for the executable model of the whole optimiser (Model/Optimizer.lean), "
               "C01_optimize_preserves: every normal return with a validating result preserves what every original track plays (layers 2-3: find_match_length / find_match / apply_match / "
@@ -27,25 +30,31 @@ LEVEL_TEXT = ("see lean/Ctrmml/Properties/C01.lean: rewrite soundness over Spec/
               "decreases (number of events, number of non-bracket events): a loop fold by C01_fold_pass_decreases, a subroutine extraction by C01_extract_pass_decreases - find_subroutines "
               "replaces at least one of the occurrences find_match counted), C01_analyzeStack_budget (the recursion of analyze_track is bounded by 1 + number of tracks) and "
               "C01_optimize_terminates_partial (the run never ends in OErr.fuel for fuel above (events+1)^2; extra hypotheses: input tracks validate, JUMP/NOTE params are int16_t values, "
-              "initialSubId + number of events < 32767); NOT proved: termination without the bound on the number of events (sub_id wrap, C01_optimize_terminates_statement) and that the stack "
+              "initialSubId + number of events < 32767); loop counts (repair of D2, repo 8105fb4: apply_match folds at most max_loop_count = 255 repetitions, the rest stays for the next pass; "
+              "the capped fold is the fold without remainder with k = 254, LoopWindow.cap): C01_fold_count_le_255 (every LOOP_END the loop branch inserts has a count in 2..255 and every other "
+              "event of the new track is an old event, LOOP_START or LOOP_BREAK), C01_pass_counts / C01_optimize_counts_le_255 (a pass / a whole run keeps every loop count of the song in the "
+              "documented domain 0..255); NOT proved: termination without the bound on the number of events (sub_id wrap, C01_optimize_terminates_statement) and that the stack "
               "analysis keeps the result within the depth limit (D18); every generated valid song is run "
               "through the REAL optimiser and the spec expander (perf) compares, for every original track, the played events with durations, the total length and the loop-point time "
-              "before and after, and requires normal termination (per-case timeout) and a validating result, for aggressiveness thresholds 0..10.")
+              "before and after, and requires normal termination (per-case timeout), a validating result and loop counts within 0..255 whenever the input's are, for aggressiveness "
+              "thresholds 0..10.")
 LEVEL_NOTE = ("Trusted: Lean kernel; Spec/Tree + Spec/Expand (meaning of loops/breaks/calls, shared with C04 where the real player is proved/tested to refine it); harness. The model of the "
               "optimiser is tied to src/optimizer.cpp by the differential stream (same song and passes on every generated case); hypotheses of C01_optimize_preserves: distinct sorted track ids "
               "< 32767, no explicit END event, LOOP_BREAKs without duration, tracks < 32767 events, subroutine ids stay below 32768; of C01_optimize_terminates_partial additionally: min_score >= 0 "
               "(for a negative threshold the pass loop does not end: a pass with score 0 changes nothing), int16_t call params (the model keeps params as unbounded Int: "
-              "Ex2.analyzeStack_fuel_artefact), initialSubId + events < 32767.  That an intermediate song exceeds the depth limit (D18) is decided per case by the oracle.")
+              "Ex2.analyzeStack_fuel_artefact), initialSubId + events < 32767.  That an intermediate song exceeds the depth limit (D18) is decided per case by the oracle.  "
+              "The list-based model is quartic in the length of a run of equal phrases: the 1000-repetition cases of the D2 family are sent as `optx` (same harness handler), the model does "
+              "not answer them and only the spec oracle judges the real optimiser there (reported in a note).")
 RULE = ("motif-repetition songs (A^k, A^k A[0..j), motifs with nested loops, breaks (also two breaks in one loop) and calls, loop point at any depth-0 position, 1..4 channel tracks sharing "
         "motifs, tracks > 15, existing tracks >= 15000 (called or not)) + straddle family (a phrase and its repetition on the two sides of a break, loop bracket, loop point or call) "
-        "x min_score in 0..10 + all tracks over a 4-symbol alphabet up to length 6 (8 thorough); non-trivial = optimiser changed the song; distinct by request")
+        "x min_score in 0..10 + D2 family (a phrase repeated 254..257, 300, 509..511, 1000 times back to back, with and without remainder, inside an outer loop, in two tracks) + all tracks over a 4-symbol alphabet up to length 6 (8 thorough); non-trivial = optimiser changed the song; distinct by request")
 EXPLANATION = "spec expander on the real optimiser's output vs on its input"
 ASSUMPTIONS = ["input songs validate (checked by the spec before judging)"]
 
 CORPUS = [
     # D1: fold counts depth-0 events but erases raw events
     "opt 10 T0:13.1.0.0,4.0.0.0,6.2.0.0,13.1.0.0,4.0.0.0,6.2.0.0,13.1.0.0,4.0.0.0,6.2.0.0,13.1.0.0,4.0.0.0,6.2.0.0,13.1.0.0,4.0.0.0,6.2.0.0",
-    # D2: more than 255 repeats
+    # D2 (repaired): more than 255 repeats -> [c]255 [c]45; the whole family is `d2_cases`
     "opt 10 T0:" + ",".join(["2.48.6.0"] * 300),
     # D3: existing track 15000
     "opt 10 T0:" + ",".join(["2.%d.24.0" % n for n in (48, 50, 52, 53, 55, 57, 59)] + ["13.1.0.0"] + ["2.%d.24.0" % n for n in (48, 50, 52, 53, 55, 57, 59)] + ["13.2.0.0"] + ["2.%d.24.0" % n for n in (48, 50, 52, 53, 55, 57, 59)] + ["13.3.0.0", "8.15000.0.0"]) + " T15000:2.48.24.0",
@@ -150,6 +159,45 @@ def straddle_cases(T, tier):
                     yield Case("opt %d %s" % (score, songgen.render(song)), ("straddle", name.split("-")[0]), "straddle")
 
 
+def d2_cases(T, tier):
+    """Repair of D2: a phrase repeated back to back more than 255 times.  One fold takes at most 255
+    repetitions (`max_loop_count`), the rest is folded by later passes.  R = number of copies of the
+    phrase; the neighbourhood of the cap (254..257, 509..511), with and without a remainder (break
+    point), inside an outer loop, in two tracks.  The list-based model is quartic in the number of
+    events of such a run (300: 6 s, 511: 25 s, 1000: > 15 min): the cases are few, and `cases` spreads
+    them over the chunks; the 1000-event cases are sent as `optx` (same handler in the harness): the model
+    does not answer and the spec oracle alone decides (`agree`)."""
+    N = lambda k, d=6: (T["NOTE"], 36 + k, d, 0)
+    LS = (T["LOOP_START"], 0, 0, 0)
+    LE = lambda c: (T["LOOP_END"], c, 0, 0)
+    quick = tier == "quick"
+    out = []
+    def add(name, song, score=10):
+        cmd = "optx" if sum(len(v) for v in song.values()) > 700 else "opt"
+        out.append(Case("%s %d %s" % (cmd, score, songgen.render(song)), ("d2-cap", name), "d2-cap"))
+    for r in ([254, 255, 256, 257] if quick else [254, 255, 256, 257, 509, 510, 511, 1000]):
+        add("R=%d" % r, {0: [N(0)] * r})
+    # context around the run: the remaining repetitions stay where they are
+    add("ctx", {0: [N(3), N(4)] + [N(0)] * 300 + [N(5)]}, 0)
+    # with a remainder (break point), far from the cap and at the cap: (a b)^255 a is the longest fold
+    # with a break that fits ([a / b]256 does not: 254 whole repetitions + remainder need count 256)
+    add("rem", {0: [N(0), N(1)] * 100 + [N(0)]})
+    add("rem-at-cap", {0: [N(0), N(1)] * 255 + [N(0)]})
+    if not quick:
+        add("rem-below-cap", {0: [N(0), N(1)] * 254 + [N(0)]})
+        add("rem-above-cap", {0: [N(0), N(1)] * 300 + [N(0)]})
+        add("rem-1000", {0: [N(0), N(1)] * 500 + [N(0)]})      # 1001 events
+    # nested in an outer loop
+    add("nested", {0: [LS] + [N(0)] * 300 + [LE(2)]}, 0)
+    # two tracks: different notes (no cross-track match) and, thorough, the same note (loop fold against
+    # subroutine extraction)
+    add("two-tracks", {0: [N(0)] * 300, 1: [N(1)] * 260})
+    if not quick:
+        add("two-tracks-same", {0: [N(0)] * 300, 1: [N(0)] * 300})
+        add("two-tracks-1000", {0: [N(0)] * 1000, 1: [N(1)] * 300})
+    return out
+
+
 def has_break2(flat, T):
     """two LOOP_BREAKs directly in one loop body (the `[a / b / c]2` shape)"""
     stack = []
@@ -165,6 +213,22 @@ def has_break2(flat, T):
 
 
 def cases(rng, tier):
+    """the heavy cases of the D2 family go one to a chunk, so that the (slow) model runs them in parallel"""
+    heavy = None
+    k = 0
+    for c in _cases(rng, tier):
+        if heavy is None:
+            heavy = d2_cases(songgen.event_types(), tier)
+        if k % CHUNK == 0 and heavy:
+            yield heavy.pop(0)
+            k += 1
+        yield c
+        k += 1
+    for c in heavy or []:
+        yield c
+
+
+def _cases(rng, tier):
     for c in CORPUS:
         yield Case(c, ("corpus",), "corpus")
     T = songgen.event_types()
@@ -228,6 +292,24 @@ def outcome_class(a):
     return r if r != "ok" else ("ok-unchanged" if pm and pm.group(1) == "1" else "ok-rewritten")
 
 
+SIZE_LIMIT = {"n": 0}
+
+
+def agree(case, impl, model):
+    """correspondence: equal answers (up to `normalize`); above the size bound of the optimiser model
+    (`optx` requests, answer `MODEL:size-limit`, Driver/Song.lean) the model does not answer and the case is decided by the spec
+    oracle on the implementation's answer alone"""
+    if case.req.startswith("optx ") and model.startswith("MODEL:size-limit"):
+        SIZE_LIMIT["n"] += 1
+        return True
+    return normalize(impl) == normalize(model)
+
+
+def judge_notes(cases, impl, judge):
+    if SIZE_LIMIT["n"]:
+        yield "%d cases above the size bound of the optimiser model: decided by the spec oracle on the implementation's answer only" % SIZE_LIMIT["n"]
+
+
 def finding_key(case, impl, judge):
     if impl.startswith("crash") or impl == "timeout" or impl.startswith("uncaught"):
         m = re.search(r"(\w+\.cpp:\d+)", impl)
@@ -238,6 +320,7 @@ def finding_key(case, impl, judge):
     if "performance changed" in judge: return "performance-changed"
     if "length changed" in judge: return "length-changed"
     if "loop point" in judge: return "loop-time-changed"
+    if "loop count" in judge: return "loop-count-domain"
     if "no longer validates" in judge or "does not validate" in judge: return "result-invalid"
     return "other"
 
